@@ -4,6 +4,9 @@ import (
 	"errors"
 	"fmt"
 	"os"
+	"sync"
+	"sync/atomic"
+	"time"
 
 	mwdb "massnet.org/mass-wallet/masswallet/db"
 	"massnet.org/mass-wallet/masswallet/db/ldb"
@@ -24,6 +27,43 @@ type Runner struct {
 	wtx     mwdb.DBTransaction
 	metas   map[string]mwdb.BucketMeta
 	Log     func(ev interface{}) // trace sink (may be nil)
+	// Overlap > 0: while a write transaction is open, a second writer calls BeginTx now and then (after about one
+	// operation in Overlap), waits for the store's writer lock and rolls its empty transaction back at once.  The
+	// recorded history stays serial (the waiting writer changes nothing); what the open transaction reads and
+	// commits must not depend on a writer that is merely waiting.
+	Overlap int
+	ovN     int
+	ovWG    sync.WaitGroup
+	ovBusy  int32
+}
+
+// waitingWriter starts a second writer that blocks in BeginTx until the open transaction ends.
+func (r *Runner) waitingWriter() {
+	if r.Overlap <= 0 || r.wtx == nil || atomic.LoadInt32(&r.ovBusy) != 0 {
+		return
+	}
+	r.ovN++
+	if (r.ovN*7+r.ovN/3)%uint32max(r.Overlap) != 0 {
+		return
+	}
+	atomic.StoreInt32(&r.ovBusy, 1)
+	r.ovWG.Add(1)
+	d := r.d
+	go func() {
+		defer r.ovWG.Done()
+		defer atomic.StoreInt32(&r.ovBusy, 0)
+		if tx, err := d.BeginTx(); err == nil {
+			tx.Rollback()
+		}
+	}()
+	time.Sleep(300 * time.Microsecond) // let it reach the writer lock
+}
+
+func uint32max(n int) int {
+	if n < 1 {
+		return 1
+	}
+	return n
 }
 
 var errClosure = errors.New("kvstore harness: closure returns an error")
@@ -43,6 +83,7 @@ func (r *Runner) Close() {
 		r.wtx.Rollback()
 		r.wtx = nil
 	}
+	r.ovWG.Wait()
 	if r.d != nil {
 		r.d.Close()
 		r.d = nil
@@ -412,6 +453,7 @@ func (r *Runner) Run(ops []*Op, after func(i int, res Res)) error {
 			if r.wtx != nil {
 				return fmt.Errorf("op %d: reopen with a write transaction open", i)
 			}
+			r.ovWG.Wait()
 			err := r.d.Close()
 			if err == nil {
 				r.d, err = ldb.OpenDB(r.Dir)
@@ -423,6 +465,7 @@ func (r *Runner) Run(ops []*Op, after func(i int, res Res)) error {
 		case "errret":
 			return fmt.Errorf("op %d: errret outside db.Update", i)
 		default:
+			r.waitingWriter()
 			after(i, r.Exec(op))
 		}
 		i++
@@ -448,6 +491,7 @@ func (r *Runner) runUpdate(ops []*Op, begin int, after func(i int, res Res)) (ne
 				stop = len(ops)
 				return errClosure
 			default:
+				r.waitingWriter()
 				after(j, r.Exec(ops[j]))
 			}
 		}
